@@ -134,9 +134,13 @@ func c05Search(c *Ctx) {
 }
 
 // c05Sweep (rule C05.K7): AdvanceEpoch judges expiry against the epoch it has just advanced to.
-func c05Sweep(c *Ctx) {
+func c05Sweep(c *Ctx) { sweepAfterAdvance(c, "C05.K7.sweepAfterAdvance") }
+
+// sweepAfterAdvance is shared by C05 (the slot is counted free while a mapping still points at it) and C01 (a second
+// subscriber can take that slot: two holders of one address).
+func sweepAfterAdvance(c *Ctx, ruleID string) {
 	r := c.R
-	r.Rule("C05.K7.sweepAfterAdvance", "AdvanceEpoch increments the epoch before it sweeps the subscriber maps: the sweep's expiry test reads the new epoch, so mappings of leases that expire with this advance are dropped now", 1)
+	r.Rule(ruleID, "AdvanceEpoch increments the epoch before it sweeps the subscriber maps: the sweep's expiry test reads the new epoch, so mappings of leases that expire with this advance are dropped now", 1)
 	f := c.fn("pkg/allocator", "EpochBitmapAllocator", "AdvanceEpoch")
 	if f == nil {
 		return
@@ -167,6 +171,6 @@ func c05Sweep(c *Ctx) {
 			}
 		}
 	}
-	r.Check("C05.K7.sweepAfterAdvance", load.ShortFunc(f), "currentEpoch++ precedes the sweep", c.P.Pos(f.Pos()), ok,
+	r.Check(ruleID, load.ShortFunc(f), "currentEpoch++ precedes the sweep", c.P.Pos(f.Pos()), ok,
 		"the sweep runs (or computes its threshold) before the epoch is advanced: the mapping of a lease that expires with this advance survives one more epoch while its slot is already free — a second subscriber can take the slot and both then hold the same address")
 }
